@@ -35,6 +35,8 @@ type Scenario struct {
 	// actor whose ID the message is for.  Rewrite may replace the message per recipient.
 	Route   func(from Actor, m *protocol.Message) []string
 	Rewrite func(from Actor, to Actor, m *protocol.Message) *protocol.Message
+	// AtDeliver may replace a message at the moment it is delivered (it sees the whole world, e.g. what the recipient has emitted so far).
+	AtDeliver func(w View, from Actor, to Actor, m *protocol.Message) *protocol.Message
 	// Extra deliveries that may be injected (foreign-session or stale messages), each at most once, budget-limited.
 	Inject       []Inject
 	DupBudget    int
@@ -42,6 +44,13 @@ type Scenario struct {
 	ResultKey    func(r interface{}) string
 	Seed         int64
 }
+
+// View is what AtDeliver may look at: everything each actor has emitted so far.
+type View interface {
+	SentBy(actorKey string) []*protocol.Message
+}
+
+func (w *World) SentBy(k string) []*protocol.Message { return w.Actors[k].Sent }
 
 type Inject struct {
 	Label string
@@ -162,7 +171,11 @@ func (w *World) Apply(e string) bool {
 			if p.id == e[2:] {
 				w.Pending = append(w.Pending[:i:i], w.Pending[i+1:]...)
 				w.Delivered = append(w.Delivered, p)
-				w.Actors[p.to].Deliver(p.m)
+				m := p.m
+				if w.sc.AtDeliver != nil {
+					m = w.sc.AtDeliver(w, w.actorOf[p.from], w.actorOf[p.to], m)
+				}
+				w.Actors[p.to].Deliver(m)
 				w.flush()
 				return true
 			}
@@ -195,6 +208,21 @@ func (w *World) Apply(e string) bool {
 		return true
 	}
 	return false
+}
+
+// AbsorbClosed delivers every pending message whose recipient has already ended (the live
+// counterpart of the product search's reduction).
+func (w *World) AbsorbClosed() {
+	for changed := true; changed; {
+		changed = false
+		for _, p := range w.Pending {
+			if w.Actors[p.to].Closed {
+				w.Apply("D|" + p.id)
+				changed = true
+				break
+			}
+		}
+	}
 }
 
 func (sc *Scenario) Replay(hist []string) (*World, error) {
@@ -279,6 +307,8 @@ type Stats struct {
 	Complete                   bool
 	WallS                      float64
 	Violations                 []Violation
+	ActorSteps                 int64 // product search: deliveries executed on real handlers
+	ActorTransitions           int64 // product search: distinct (actor state, message) pairs executed
 }
 
 type Violation struct {
@@ -286,14 +316,44 @@ type Violation struct {
 	History     []string
 }
 
-// Checker judges a state (every state) and a sink (no pending deliveries).
-type Checker struct {
-	State func(w *World, hist []string) []Violation
-	Sink  func(w *World, hist []string) []Violation
+// W is what a checker may read of a global state (live or product form).
+type W interface {
+	View
+	Status() map[string]string
+	Info(actorKey string) ActorInfo
+	NPending() int
 }
 
-// Search explores the whole state space breadth-first.
-func (sc *Scenario) Search(ck Checker, maxStates int64, deadline time.Time) *Stats {
+type ActorInfo struct {
+	Panic, PanicFrame string
+	Hung              bool
+	Closed            bool
+	Sent              []*protocol.Message
+}
+
+func (w *World) Info(k string) ActorInfo {
+	p := w.Actors[k]
+	return ActorInfo{Panic: p.Panic, PanicFrame: p.PanicFrame, Hung: p.Hung != "", Closed: p.Closed, Sent: p.Sent}
+}
+func (w *World) NPending() int { return len(w.Pending) }
+
+// Checker judges a state (every state) and a sink (no pending deliveries).
+type Checker struct {
+	State func(w W, hist []string) []Violation
+	Sink  func(w W, hist []string) []Violation
+}
+
+// Actors lists the actor keys of the scenario in order.
+func (sc *Scenario) ActorKeys() []string {
+	var l []string
+	for _, a := range sc.Actors {
+		l = append(l, a.Key)
+	}
+	return l
+}
+
+// SearchLive explores the whole state space breadth-first, replaying whole worlds (reference implementation of Search, much slower).
+func (sc *Scenario) SearchLive(ck Checker, maxStates int64, deadline time.Time) *Stats {
 	t0 := time.Now()
 	st := &Stats{Outcomes: map[string]int64{}, Complete: true}
 	seenV := map[string]bool{}
